@@ -254,3 +254,15 @@ mut("c06-writer-encoding-cached-on-class", "C06", MC,
     "        self.encoding = encoding\n        self.iso_config = iso_config\n        super(IpmWriter, self).__init__(file_obj, **kwargs)",
     "        IpmWriter.encoding = encoding\n        self.iso_config = iso_config\n        super(IpmWriter, self).__init__(file_obj, **kwargs)",
     note="encoding kept on the class: a writer created later changes the encoding of one created earlier (op-level: needs two IpmWriters with different encodings alive at once)")
+
+mut("c06-encoding-stamped-into-shared-config", "C06", MC,
+    "        self.encoding = encoding\n        self.iso_config = iso_config\n        super(IpmReader, self).__init__(ipm_file, **kwargs)",
+    "        self.encoding = encoding\n        self.iso_config = iso_config\n        if iso_config and encoding:\n            for _bit in iso_config.values():\n                _bit['_enc'] = encoding\n        super(IpmReader, self).__init__(ipm_file, **kwargs)",
+    more=[(ISO, "    field_length = bit_config['field_length']\n\n    length_size = _get_field_length(bit_config)",
+                "    encoding = bit_config.get('_enc', encoding)\n    field_length = bit_config['field_length']\n\n    length_size = _get_field_length(bit_config)")],
+    note="two cooperating sites: a reader stamps its encoding into the configuration dict it was given, the decoder prefers the stamp; instances that share one configuration object but use different encodings influence each other (needs share_config + creation order under the schedule)")
+
+mut("c10-operator-text-uses-wrong-number", "C10", "cardutil/cli/__init__.py",
+    "        print(f'Error detected in record {err.record_number}')",
+    "        print(f'Error detected in record {err.record_number - (1 if err.ex else 0)}')",
+    note="operator report subtracts one for wrapped (message-level) errors: error object is right, the printed text is not")
